@@ -1,0 +1,21 @@
+//go:build verif
+
+// Copyright 2025 NVIDIA CORPORATION
+// SPDX-License-Identifier: Apache-2.0
+
+package proportion
+
+import (
+	"github.com/NVIDIA/KAI-scheduler/pkg/scheduler/api/common_info"
+	rs "github.com/NVIDIA/KAI-scheduler/pkg/scheduler/plugins/proportion/resource_share"
+)
+
+// VerifQueues exposes the plugin's per-queue attributes (read-only use) when built with -tags verif.
+func (pp *proportionPlugin) VerifQueues() map[common_info.QueueID]*rs.QueueAttributes {
+	return pp.queues
+}
+
+// VerifTotalResource exposes the total resources the fair share was computed on.
+func (pp *proportionPlugin) VerifTotalResource() rs.ResourceQuantities {
+	return pp.totalResource
+}
